@@ -192,6 +192,29 @@ def rule_c(ctx):
             if a1 == frozenset([("arg", 2)]) and any(origin_contains(o, lambda t: t[0] == "proj" and t[2] == ("f", "model_names")) for o in a0):
                 ok = True
     ctx.ob("map|model-name-lookup", ok, "the model name is model_names[id] with id taken from the ModelId", sites)
+    # ... and that lookup is the *only* source of the `model` field of NoRecipient / Panic (no second table, no fallback)
+    for v in ("NoRecipient", "Panic"):
+        for s in b.aggregates(adt="simulation::ExecutionError", variant=v):
+            r = s.node["r"]
+            fo = dict(zip(r.get("fields") or [], r["ops"]))
+            if "model" not in fo:
+                continue
+            mo = b.origins(fo["model"], s)
+            good = bool(mo)
+            for o in mo:
+                rt, names = origin_proj_names(o)
+                if not (rt[0] == "call" and rt[2] == "std::option::Option::map"):
+                    good = False
+                    continue
+                ms = Site(b, rt[1], TERM)
+                # receiver: ModelId::get(..); mapper: the closure doing the model_names lookup
+                ro = b.origins(ms.args()[0], ms)
+                good = good and bool(ro) and all(x[0] == "call" and x[2] == "simulation::ModelId::get" for x in ro)
+                co = b.origins(ms.args()[1], ms)
+                lookups = set(g.body.name for g in sites)
+                good = good and bool(co) and all(x[0] == "agg" and x[3] in lookups for x in co)
+            ctx.ob("map|%s|model-from-model-names" % v, good and ok,
+                   "the `model` of %s is exactly ModelId::get().map(|id| model_names[id]) (origins: %s)" % (v, K.describe_origin(mo)), [s])
 
 
 def rule_d(ctx):
